@@ -131,6 +131,11 @@ def well_formed(t, expect_response=True) -> bool:
     the close.  ``expect_response=False``: nothing at all may have been written.
     """
     data, closes, late = wire_response(t)
+    return well_formed_data(data, closes, late, expect_response)
+
+
+def well_formed_data(data, closes, late, expect_response=True) -> bool:
+    """the recogniser on (bytes written before close, number of closes, writes after close)"""
     if late:
         return False
     if not expect_response:
